@@ -75,7 +75,7 @@ theorem runSeqArms_lock (F : Frame inpS inpW δ) (hops : OpsSim env.ops inpS inp
     | .inr ms2 => ∃ mw2, runSeqArms env inpW ch arms mw = .inr mw2 ∧ MRel δ 0 0 (fs st).2.inStep .none ms2 mw2 ∧
         ms2.c = ms.c ∧ ms2.x = ms.x ∧ mw2.c = mw.c ∧ mw2.x = mw.x ∧ (leaveSeq mw2).r = (leaveSeq mw).r
     | .inl rs => (∃ rw, runSeqArms env inpW ch arms mw = .inl rw ∧ LockOut env.tbl fs inpW δ K Loc eoi rs rw) ∨
-        ((eoi = true → ¬ Closed inpS inpW δ) ∧ BreakOut env.tbl fs env.ops inpS inpW δ 0 ms.x mw0 rs) := by
+        ((eoi = true → ¬ Closed inpS inpW δ) ∧ BreakOut env.tbl fs env.ops Loc inpS inpW δ 0 ms.x mw0 rs) := by
   intro arms
   induction arms with
   | nil =>
@@ -105,7 +105,7 @@ theorem runSeqArms_lock (F : Frame inpS inpW δ) (hops : OpsSim env.ops inpS inp
               MRel δ 0 0 (fs st).2.inStep .none ms2 mw2 ∧
               ms2.c = ms.c ∧ ms2.x = ms.x ∧ mw2.c = mw.c ∧ mw2.x = mw.x ∧ (leaveSeq mw2).r = (leaveSeq mw).r
           | .inl rs => (∃ rw, runSeqArms env inpW ch rest (leaveSeq (enterSeq mw)) = .inl rw ∧ LockOut env.tbl fs inpW δ K Loc eoi rs rw) ∨
-              ((eoi = true → ¬ Closed inpS inpW δ) ∧ BreakOut env.tbl fs env.ops inpS inpW δ 0 ms.x mw0 rs) := by
+              ((eoi = true → ¬ Closed inpS inpW δ) ∧ BreakOut env.tbl fs env.ops Loc inpS inpW δ 0 ms.x mw0 rs) := by
         intro _
         have hcs' : (leaveSeq (enterSeq ms)).c = ms.c := hlcs.trans hcs
         have hxs' : (leaveSeq (enterSeq ms)).x = ms.x := hlxs.trans hxs
@@ -148,12 +148,12 @@ theorem runSeqArms_lock (F : Frame inpS inpW δ) (hops : OpsSim env.ops inpS inp
             exact ⟨arm, hsub arm List.mem_cons_self, hseq⟩
           -- the split run needs more input
           have hbreak : ms.c.isLast = false →
-              BreakOut env.tbl fs env.ops inpS inpW δ 0 ms.x mw0 (breakOnEndOfInput inpS (enterSeq ms)) := by
+              BreakOut env.tbl fs env.ops Loc inpS inpW δ 0 ms.x mw0 (breakOnEndOfInput inpS (enterSeq ms)) := by
             intro hl
             have hbp' := hbp.congr (ms' := enterSeq ms) (mw' := enterSeq mw) hcs hcw hxw (by rw [leaveSeq_enterSeq_r])
             exact breakOut_of_split (by rw [hcs]; exact cx) he (by rw [hcs]; exact hl) (Or.inr ⟨rfl, hinSeq⟩)
               (fun h => absurd h (Nat.lt_irrefl 0)) npw0 hbp'.np hbp'.skip hbp'.c0 hbp'.x0 hbp'.r0 hbp'.q0 ms.x
-              (by rw [hxs]) (by rw [hxs]) (Or.inl ⟨rfl, by rw [hxs]⟩)
+              (by rw [hxs]) (by rw [hxs]) (Or.inl ⟨rfl, by rw [hxs], fun h => absurd h (Nat.lt_irrefl 0)⟩)
           rcases hfirst with ⟨hsame, hbound⟩ | ⟨hneed, hncl, hnl⟩
           · rw [hsame]
             cases hf : firstOf inpS ch e0 es ic (enterSeq ms).c.isLast (enterSeq ms).c.nextPos with
@@ -227,7 +227,7 @@ theorem runSeqArms_end {fs : FlagMap} {st : StateId} {sd : StateDef} :
     match runSeqArms env inpS none arms ms with
     | .inr ms2 => ∃ mw2, MRel δ d 0 (fs st).2.inStep .none ms2 mw2 ∧
         ms2.c = ms.c ∧ ms2.x = ms.x ∧ mw2.c = mw.c ∧ mw2.x = mw.x ∧ (leaveSeq mw2).r = (leaveSeq mw).r
-    | .inl rs => BreakOut env.tbl fs env.ops inpS inpW δ d ms.x mw0 rs := by
+    | .inl rs => BreakOut env.tbl fs env.ops Loc inpS inpW δ d ms.x mw0 rs := by
   intro arms
   induction arms with
   | nil =>
@@ -287,7 +287,9 @@ theorem runSeqArms_end {fs : FlagMap} {st : StateId} {sd : StateDef} :
           have hbp' := hbp.congr (ms' := enterSeq ms) (mw' := enterSeq mw) hcs hcw hxw (by rw [leaveSeq_enterSeq_r])
           exact breakOut_of_split (by rw [hcs]; exact cx) he (by rw [hcs]; exact hl) (Or.inr ⟨rfl, hinSeq⟩)
             hdebt npw0 hbp'.np hbp'.skip hbp'.c0 hbp'.x0 hbp'.r0 hbp'.q0 ms.x
-            (by rw [hxs]) (by rw [hxs]) (Or.inl ⟨rfl, by rw [hxs]⟩)
+            (by rw [hxs]) (by rw [hxs]) (Or.inl ⟨rfl, by rw [hxs], fun hd => by
+              have := (cx.ok.debt (hdebt hd)).2.2.2.1
+              rw [hinSeq] at this; cases this⟩)
       | byte b => rw [hpat] at hseq; cases hseq
       | alpha => rw [hpat] at hseq; cases hseq
       | whitespace => rw [hpat] at hseq; cases hseq
